@@ -518,6 +518,18 @@ impl Server {
         // Critical fix: Only proceed if we actually got data
         // This prevents race conditions when multiple clients wake up simultaneously
         if let Some(popped_value) = value {
+            // The pop done on behalf of the blocked client changes the dataset like any other
+            if let Some(aof) = &self.aof_engine {
+                let pop: &[u8] = match wakeup.op_type {
+                    super::connection::BlockingOp::BRPop => b"RPOP",
+                    _ => b"LPOP",
+                };
+                let effect = [RespFrame::from_bytes(pop.to_vec()), RespFrame::from_bytes(wakeup.key.clone())];
+                if let Err(e) = aof.append_command_in_db(wakeup.db, &effect) {
+                    eprintln!("Failed to append to AOF: {}", e);
+                }
+            }
+            
             // Try to update connection state - use try_with_connection to avoid deadlock
             if let Some(result) = self.connections.with_connection(wakeup.conn_id, |conn| -> Result<()> {
                 // Only wake if still in blocked state
@@ -1272,10 +1284,12 @@ impl Server {
             None
         };
         
-        // Log to AOF for write commands
+        // Log to AOF for write commands. Commands whose outcome is not determined
+        // by their arguments are logged after execution, in the form of their effect
+        let aof_after_execution = matches!(command_name.as_str(), "SPOP" | "XADD" | "BLPOP" | "BRPOP" | "EVALSHA");
         if let Some(aof) = &self.aof_engine {
-            if self.is_write_command(&command_name) {
-                if let Err(e) = aof.append_command(parts) {
+            if self.is_write_command(&command_name) && !aof_after_execution {
+                if let Err(e) = aof.append_command_in_db(db, parts) {
                     eprintln!("Failed to append to AOF: {}", e);
                 }
             }
@@ -1566,6 +1580,17 @@ impl Server {
             _ => Ok(RespFrame::error(format!("ERR unknown command '{}'", command_name))),
         };
         
+        // Log the effect of the commands that could not be logged verbatim
+        if aof_after_execution {
+            if let (Some(aof), Ok(response)) = (&self.aof_engine, &result) {
+                if let Some(effect) = self.aof_effect_of(&command_name, parts, response) {
+                    if let Err(e) = aof.append_command_in_db(db, &effect) {
+                        eprintln!("Failed to append to AOF: {}", e);
+                    }
+                }
+            }
+        }
+        
         // Auto-save change recording - always enabled (independent of monitoring)
         if self.is_write_command(&command_name) {
             if let Ok(resp) = &result {
@@ -1667,6 +1692,52 @@ impl Server {
         }
     }
     
+    /// The command to log for a command whose outcome does not follow from its
+    /// arguments alone, given the reply it produced; None when nothing changed.
+    fn aof_effect_of(&self, command: &str, parts: &[RespFrame], response: &RespFrame) -> Option<Vec<RespFrame>> {
+        let name = |n: &[u8]| RespFrame::from_bytes(n.to_vec());
+        match command {
+            // The members that were actually removed
+            "SPOP" => match response {
+                RespFrame::BulkString(Some(_)) => Some(vec![name(b"SREM"), parts.get(1)?.clone(), response.clone()]),
+                RespFrame::Array(Some(members)) if !members.is_empty() => {
+                    let mut effect = vec![name(b"SREM"), parts.get(1)?.clone()];
+                    effect.extend(members.iter().cloned());
+                    Some(effect)
+                }
+                _ => None,
+            },
+            // The ID that was actually assigned
+            "XADD" => match response {
+                RespFrame::BulkString(Some(_)) if parts.len() > 2 => {
+                    let mut effect = parts.to_vec();
+                    effect[2] = response.clone();
+                    Some(effect)
+                }
+                _ => None,
+            },
+            // A blocking pop that found an element is a plain pop of that key
+            "BLPOP" | "BRPOP" => match response {
+                RespFrame::Array(Some(pair)) if pair.len() == 2 => {
+                    Some(vec![name(if command == "BLPOP" { b"LPOP" } else { b"RPOP" }), pair[0].clone()])
+                }
+                _ => None,
+            },
+            // The script itself: a replay starts with an empty script cache
+            "EVALSHA" => {
+                let sha1 = match parts.get(1) {
+                    Some(RespFrame::BulkString(Some(bytes))) => String::from_utf8_lossy(bytes).to_string(),
+                    _ => return None,
+                };
+                let script = self.script_cache.get(&sha1).ok()??;
+                let mut effect = vec![name(b"EVAL"), RespFrame::from_bytes(script.into_bytes())];
+                effect.extend_from_slice(&parts[2..]);
+                Some(effect)
+            }
+            _ => None,
+        }
+    }
+    
     /// Check if a command is a write command that should be logged to AOF
     fn is_write_command(&self, command: &str) -> bool {
         if command == "SCRIPT" {
@@ -1680,11 +1751,12 @@ impl Server {
                 "SETNX" | "SETEX" | "PSETEX" | "FLUSHDB" | "FLUSHALL" |
                 "LPUSH" | "RPUSH" | "LPOP" | "RPOP" | "LSET" | "LREM" | "LTRIM" |
                 "SADD" | "SREM" | "SPOP" | 
-                "HSET" | "HDEL" | "HINCRBY" |
+                "HSET" | "HMSET" | "HDEL" | "HINCRBY" |
                 "ZADD" | "ZREM" | "ZINCRBY" | "ZPOPMIN" | "ZPOPMAX" |
                 "XADD" | "XTRIM" | "XDEL" |  // Stream write commands
                 "XGROUP" | "XACK" | "XCLAIM" |  // Consumer group write commands
-                "MSET" | "APPEND" | "SETRANGE" | "RENAME" | "RENAMENX" | "PERSIST" | "EVAL" | "EVALSHA"
+                "MSET" | "GETSET" | "APPEND" | "SETRANGE" | "RENAME" | "RENAMENX" | "PERSIST" | "PEXPIRE" |
+                "EVAL" | "EVALSHA"
             )
         }
     }
